@@ -7,7 +7,11 @@ RULE = ("all byte strings of length <= 2 over all 256 values, all strings of len
         "templates of length 0..40 (ASCII, trailing whitespace, escapes, 2/3/4-byte UTF-8, high bytes) with every single-byte "
         "perturbation from a 14-value set at every offset (8-byte chunk edges); valid and invalid UTF-8 (truncations, overlongs, "
         "surrogates, > U+10FFFF, stray continuations) with backslashes inserted also inside sequences; random strings; the 256-entry "
-        "table and char encoding boundaries. non-trivial = the output is not the input verbatim, or the input is longer than 8 bytes")
+        "table and char encoding boundaries; wave 4 (props/C12_routes.py): every length 0..40 x every position of a 2/3/4-byte character and of "
+        "23 ill-formed forms x backslash before / inside / after / at the next chunk edge, every pair (first backslash, first high byte), "
+        "every run 0..9 of every whitespace byte and 8 look-alikes after every length, lengths 41..200 / 250..263 / 510..520 / ~4096 / ~65536, "
+        "14 call routes (trait method, new, Default, clone, &T, &&T, &dyn, Box<T>, Box<dyn>, ...), sub-slices at alignments 0..8 with hostile "
+        "neighbours and the address of the borrowed str, Scalar's Display, document -> read_str / &str / String / Cow fields. non-trivial = the output is not the input verbatim, or the input is longer than 8 bytes")
 TRUSTED = ["String::from_utf8_lossy / str::from_utf8 / char::encode_utf8 (std) are modelled by Utf8.lossy / valid_utf8 / encode_utf8 and "
            "compared against std directly on every run (streams std_*)",
            "oracle: own Windows-1252 table (Python cp1252 codec for assigned bytes, C1 controls for 0x81 0x8d 0x8f 0x90 0x9d); "
@@ -57,29 +61,31 @@ def is_valid(b):
         return False
 
 
-def check_decode(ctx, c, out):
+def check_decode(ctx, c, out, rep=None, note=""):
+    """rep: the case line to put in the replay when the decoder was reached through another kind (wave 4)"""
+    rc = [rep or c]
     kind, h = c.split("\t")[:2]
     d = unhex(h)
-    name = "Windows1252Encoding" if kind == "enc.w1252" else "Utf8Encoding"
+    name = ("Windows1252Encoding" if kind == "enc.w1252" else "Utf8Encoding") + note
     if out in ("PANIC", "ABORT", "HANG") or out[:2] not in ("B:", "O:"):
-        ctx.fail("decode-panic", "%s::decode(%r) -> %s" % (name, d, out), [c], [out], "a string")
+        ctx.fail("decode-panic", "%s::decode(%r) -> %s" % (name, d, out) + note, rc, [out], "a string")
         return
     borrowed = out[0] == "B"
     got = unhex(out[2:])
     t = trim(d)
     exp = ref_w1252(d) if kind == "enc.w1252" else ref_utf8(d)
     if not is_valid(got):
-        ctx.fail("invalid-utf8", "%s::decode(%r) is not valid UTF-8: %s" % (name, d, got.hex()), [c], [out], "valid UTF-8")
+        ctx.fail("invalid-utf8", "%s::decode(%r) is not valid UTF-8: %s" % (name, d, got.hex()), rc, [out], "valid UTF-8")
     if got != exp:
         ctx.fail("reference", "%s::decode(%r) = %r, reference mapping (trim, unescape, %s) = %r" % (
-            name, d, got, "code page" if kind == "enc.w1252" else "lossy", exp), [c], [out], ("O:" if not borrowed else "B:") + hexs(exp))
+            name, d, got, "code page" if kind == "enc.w1252" else "lossy", exp), rc, [out], ("O:" if not borrowed else "B:") + hexs(exp))
     plain = all(x < 128 and x != 0x5c for x in t)
     if plain and not borrowed:
-        ctx.fail("not-borrowed", "%s::decode(%r): escape-free ASCII input was not returned borrowed" % (name, d), [c], [out], "B:" + hexs(t))
+        ctx.fail("not-borrowed", "%s::decode(%r): escape-free ASCII input was not returned borrowed" % (name, d), rc, [out], "B:" + hexs(t))
     if borrowed and got != t:
-        ctx.fail("borrowed-differs", "%s::decode(%r) is borrowed but is not the trimmed input" % (name, d), [c], [out], "B:" + hexs(t))
+        ctx.fail("borrowed-differs", "%s::decode(%r) is borrowed but is not the trimmed input" % (name, d), rc, [out], "B:" + hexs(t))
     if borrowed and kind == "enc.w1252" and not plain:
-        ctx.fail("borrowed-nonascii", "%s::decode(%r) borrowed a non-ASCII / escaped input" % (name, d), [c], [out], "O:" + hexs(exp))
+        ctx.fail("borrowed-nonascii", "%s::decode(%r) borrowed a non-ASCII / escaped input" % (name, d), rc, [out], "O:" + hexs(exp))
 
 
 def run_decoders(ctx, stream, strs, both=True):
@@ -262,6 +268,12 @@ def run(ctx):
     run_decoders(ctx, "utf8_sequences", sorted(utf8_strings(ctx, rng)))
     # 5. random
     run_decoders(ctx, "random", sorted(random_strings(ctx, rng)))
+    # >>> a_c12 (wave 4): routes to the decoders (trait / &T / Box / dyn / new / Default / Scalar Display / document -> &str),
+    #     sub-slices with hostile neighbours + address of the borrowed str, feature grids, trailing whitespace, long strings
+    import sys
+    from props import C12_routes
+    C12_routes.run(ctx, sys.modules[__name__])
+    # <<<
 
 
 def search(ctx):
